@@ -514,7 +514,9 @@ func ruleC07R1(w *World, r *Report) {
 					inRef = true
 				}
 			}
-			if !inRef && !(ref.kind == "comparison" && strings.HasPrefix(k, "Is")) {
+			// the comparison level of GoogleSQL also has the IS family, quantified LIKE (LIKE ANY/SOME/ALL) and IS [NOT]
+			// DISTINCT FROM: a grammar that adds them as nodes of their own stays within the table (C07/R2 checks how they print)
+			if !inRef && !(ref.kind == "comparison" && (strings.HasPrefix(k, "Is") || strings.HasSuffix(k, "LikeExpr") || strings.Contains(k, "Distinct"))) {
 				othDiff = append(othDiff, "extra "+k)
 			}
 		}
